@@ -104,3 +104,20 @@ CHECKS["C03"] = {
     "assumptions": MC_ASSUME,
     "deadline": {"quick": 600, "thorough": 3000},
 }
+
+
+CHECKS["C11"] = {
+    "builds": [{"name": "index_driver", "sources": ["drivers/index_driver.cpp"], "flags": ["-O1", "-g"]}],
+    "runs": [{"driver": "index_driver", "args": ["--mode", "C11"], "slices": 32}],
+    "level": "exploration",
+    "replayable": False,
+    "rule": "every cell of every level of trees up to a bounded height for Morton dim 1..4 (periodic and not) and Hilbert dim 3, "
+            "plus the boundary lattice {0..3, mid-1..mid+1, max-3..max}^dim at levels up to the largest whose indices fit 63 bits; "
+            "per cell: encode/decode bijection and upper bound, parent = containing cell, child code = octant, neighbour list "
+            "(with/without upper-half filter) and interaction list = set equality with the geometric definitions; per group "
+            "(every contiguous run of <= 3 cells of dense and gapped levels): internal/external split, self-inclusion filter, "
+            "position codes decode to the true offset; position-code encode/decode inverse. Cases are distinct by construction; "
+            "non-trivial = level >= 2 or a group case.",
+    "assumptions": COMMON_ASSUME,
+    "deadline": {"quick": 300, "thorough": 1800},
+}
